@@ -1,6 +1,15 @@
 # Table read by tools/gen_manifest.py (exec'd).  One check(...) per claimed property;
 # NOT_YET[id] = reason for every property not (yet) claimed.
 
+check('C01', 'Hypothesis-driven totality search over text pools x renderer configurations x input forms, complete short-string enumeration, exception allow-list with independent admissibility predicates, wall-clock watchdog',
+      'hypothesis-sharded + enumeration-pool + atheris',
+      'Random, mutated, generated and pumped texts (<= 4 KB) go through all 11 renderer configurations with drawn options and the '
+      'str / list / file input forms; every string over a 12-symbol alphabet up to length 5 (6-7 thorough) is enumerated. Any exception '
+      'outside the three documented refusals, any non-str result and any confirmed time-out is a violation.',
+      'Termination is judged against a wall clock (10 s, confirmed by a 30 s re-run); RecursionError is accepted only when a text-derived '
+      'nesting bound exceeds 100; absence of crashes is sampled, not proved.',
+      'DESIGN.md 5/C01')
+
 check('C02', 'complete enumeration of the vendored spec corpus against expected HTML under the spec normaliser',
       'enumeration-pool',
       'Every one of the 652 normative examples is executed on every run (as str and as list of lines) and compared with the '
@@ -17,6 +26,6 @@ check('C06', 'exhaustive small-alphabet enumeration + Hypothesis strings against
       'DESIGN.md 5/C06')
 
 _PENDING = 'check not built yet in this revision (work in progress; technique applies, see DESIGN.md section 5)'
-for _p in ['C01', 'C03', 'C04', 'C05', 'C07', 'C08', 'C09', 'C10', 'C11', 'C12', 'C13', 'C14', 'C15',
+for _p in ['C03', 'C04', 'C05', 'C07', 'C08', 'C09', 'C10', 'C11', 'C12', 'C13', 'C14', 'C15',
            'C16', 'C17', 'C18', 'C19']:
     NOT_YET[_p] = _PENDING
